@@ -36,6 +36,16 @@ type Run struct {
 	KnownHits    map[string]int
 	TieBreaks    []tieBreak
 	InternalErrs []string
+
+	outPath string    // result file (set by main), for checks that have to end the run themselves
+	started time.Time // start of the run
+}
+
+// Abort ends the run now (used when the code under test is stuck and the normal return path cannot be taken):
+// verdict lines and the result file are written as usual.
+func (r *Run) Abort() {
+	r.finish(r.outPath, time.Since(r.started))
+	os.Exit(r.exitCode())
 }
 
 type violation struct {
